@@ -5,7 +5,10 @@ Tie: hand-written model + correspondence: the real SingleScatterSimulation and t
 ok / err / crash / fresh / stale / number of scatter points / template sizes after every operation of a history).
 Oracle: the property's own statement on the implementation (harness/c16_scatter.cxx).
 Round 2: BlocksOnCylindrical templates, in-place change + same pointer, same-count scatter points elsewhere, down-sampled scanners,
-automatic zoom, downsample_images_to_scanner_size, random placement."""
+automatic zoom, downsample_images_to_scanner_size, random placement.
+Round 3: the older switch set_cache_enabled(bool) and the parsed keyword `use cache` in forced three-step histories (cache on / off + change of an
+image / on again), setters by file name, set_exam_info_sptr, set_randomly_place_scatter_points in mid-history, the three ways to provide the output,
+the parsing constructor (oracle)."""
 import os
 from fractions import Fraction
 import vlib
@@ -52,11 +55,11 @@ def main(tier, replay):
     audit = vlib.lean_gate(chk, PROP)
     stats = vlib.run_differential(chk, PROP, "c16_scatter", tier, compare=compare)
     vlib.standard_coverage(chk, stats,
-        "real SingleScatterSimulation on generated scanners, 7 templates per world: cylindrical (8-16 detectors x 1-3 rings; two of equal size "
+        "real SingleScatterSimulation on generated scanners, 7 generated templates per world (+ 4 cylindrical ones read back from Interfile projection-data headers written by the harness): cylindrical (8-16 detectors x 1-3 rings; two of equal size "
         "with different radius/energy resolution, one of another size, two with a coarse default bin size), BlocksOnCylindrical (4-6 flat blocks of "
         "3-4 crystals x 2-3 rings, two of equal size with different radius/crystal pitch: the two crystals of a pair are at different radii, "
         "generator-checked), down-sampled scanners (downsample_scanner through the set_up flag and through explicit calls, both geometries); "
-        "3 energy windows, dense/sparse/zero activity images, 3 attenuation images (one the mirror image of another: same number of derived scatter "
+        "3 energy windows (two share the upper, two the lower threshold) + those read back from 4 Interfile projection-data headers, dense/sparse/zero activity images, 3 attenuation images (one the mirror image of another: same number of derived scatter "
         "points elsewhere), 3 scatter-point images (two with the same number of scatter points at different voxels), 2 thresholds, 2 explicit zoom "
         "sets + the automatic (-1) zoom/size, downsample_images_to_scanner_size, randomly_place_scatter_points off and on (time() replaced by a "
         "clock derived from the seed). "
@@ -64,7 +67,13 @@ def main(tier, replay):
         "the pair) vs the Lean formula evaluated exactly in Rat on the ingredients the implementation read — the incidence cosine of EACH detector "
         "separately — tolerance 4*n*2^-24*M (n=16 / 64 / 8, M = formula on absolute values), on all of the above configurations. "
         "History operations (set_*/set_up/process/nsp/tmplinfo, `set_act_ip`/`set_att_ip`/`set_spimg_ip` = the owner overwrites the image in "
-        "place and hands the SAME shared_ptr to the setter again, `ds_scanner r d`, `ds_sp`): answers ok/err/crash/`ok fresh`/`ok stale`/counts "
+        "place and hands the SAME shared_ptr to the setter again, `ds_scanner r d`, `ds_sp`; round 3: BOTH cache switches `set_use_cache` (clears "
+        "the arrays, then the flag) and `set_cache_enabled` (the flag only) and the parsed keyword `parse_use_cache b` = parse() of a parameter "
+        "file with only `use cache := b`; `set_act_file`/`set_att_file`/`set_spimg_file`/`set_tmpl_file k e` = the setters by FILE NAME on Interfile "
+        "files written by the harness (the pool images ARE what read_from_file returns, the file templates / exam infos are pool entries of "
+        "their own), `set_exam_sptr` = set_exam_info_sptr, `set_rnd b` = set_randomly_place_scatter_points at any point of a history (the flag is "
+        "part of the model's scatter-point stamp), output provided through set_output_proj_data_sptr(sptr) / set_output_proj_data(\"\") / "
+        "set_output_proj_data_sptr(exam, info, \"\") chosen per history): answers ok/err/crash/`ok fresh`/`ok stale`/counts "
         "compared literally with the Lean state machine; `ok fresh` = output bitwise equal to that of a freshly configured object (given equal "
         "VALUES through other pointers). distinct = distinct operation lines. "
         "Oracle (every phase-A configuration): A<->B symmetry for all detector pairs x scatter points (64*2^-24 relative), bin = estimate of its "
@@ -72,7 +81,19 @@ def main(tier, replay):
         "2*estimate (16*2^-24), additivity (4*64*2^-24) on fresh objects and on the SAME object (set_activity_image_sptr + set_up; the only form "
         "used with random placement, where the clock advances between samplings), cache on == off (bitwise; same object with random placement); "
         "every process_data of a clean history == fresh object (bitwise; a fifth of the random histories and some targeted ones with random "
-        "placement and the clock pinned). Oracle-only histories (not in the Lean state machine): automatic zoom/size after activity / "
+        "placement and the clock pinned). "
+        "FORCED per world and seed (round 3): 18 three-step histories — compute with the cache on; switch off with set_cache_enabled / the parsed "
+        "keyword; change the activity or the attenuation image (new object / in place + same pointer / by file name; scatter points derived or "
+        "given again, so that the arrays keep their size); [set_up; compute without cache;] switch on; set_up; compute; for half of them the same "
+        "backwards — plus the switch with nothing changed, with a same-size template / same-count scatter-point image changed meanwhile, and "
+        "with set_use_cache: EVERY result bitwise == fresh object with the same settings AND == fresh object with the OPPOSITE cache setting "
+        "(`cache-flipped-oracle`, also on a quarter of the random histories), and == Lean state machine under the weaker guard of `runGuarded2` "
+        "(kind `clean2`: enabling the cache on a set-up object is admitted when the next operation is set_up; all random clean histories use it). "
+        "Entry-point histories: everything by file name and changes by file name after a computation, file/object mixed, set_exam_info_sptr after "
+        "a template change (clean) and alone (KNOWN class of set_exam_info), set_randomly_place_scatter_points before the scatter points are "
+        "sampled (clean), with the value it already has on an object with a user-supplied scatter-point image (clean), after they were sampled "
+        "(recorded, like threshold/zoom). Oracle-only: SingleScatterSimulation(parameter file) with all keywords == object configured through "
+        "the setters, also after parse(`use cache`) + another activity image, twice. Oracle-only histories (not in the Lean state machine): automatic zoom/size after activity / "
         "attenuation / template changes, downsample_images_to_scanner_size after a computation.")
     chk.assumptions += [
         "line integrals, Compton cross sections, detection efficiencies, cosines and pow() are inputs of the formula model (their linearity / sign "
@@ -81,9 +102,14 @@ def main(tier, replay):
         "state machine over value identities: two different images/templates/windows are assumed to give different integrals (generator makes sure); "
         "an in-place change + same pointer is modelled as the setter with new values (theorem C16_inplace_same_pointer_invalidates_like_new_pointer); "
         "changing an image in place WITHOUT calling the setter is outside the property and not exercised",
-        "automatic (-1) zoom factors, downsample_images_to_scanner_size and set_randomly_place_scatter_points are not in the Lean state machine "
-        "(oracle on the implementation only); random placement: srand(time(NULL)) is made reproducible by replacing time(); two objects are only "
-        "compared with the clock pinned",
+        "automatic (-1) zoom factors and downsample_images_to_scanner_size are not in the Lean state machine (oracle on the implementation only); "
+        "random placement: the FLAG is a setting of the state machine (stamp of the scatter points), the positions drawn are not modelled; "
+        "srand(time(NULL)) is made reproducible by replacing time(); two objects are only compared with the clock pinned",
+        "public non-const members NOT exercised: ask_parameters (interactive), set_output_proj_data / set_output_proj_data_sptr with a non-empty "
+        "file name (output on disk, write_log), the keywords other than `use cache` only through the parsing constructor (oracle, no model); "
+        "`parse_use_cache` is only used on objects whose file-name members are empty (a parse() after a setter by file name reads the files again: "
+        "exercised by the parsed-constructor oracle only); BlocksOnCylindrical templates are not written to files (their Interfile header does not "
+        "read back: 6-decimal crystal/block spacing — header I/O, outside C16)",
         "BlocksOnCylindrical templates have >= 2 rings (downsample_scanner of a one-ring blocks scanner gives zero ring spacing) and only LORs "
         "between different blocks (tangential range n/2-1); single thread",
         "32-bit overflow not modelled"]
